@@ -178,16 +178,24 @@ def c_table(ctx):
     return cL([cP(cP(cN(t), cO(None if cc is None else cN(cc))), cN(h)) for t, cc, h in ctx.table()])
 
 
+SLICEAWARE = False     # which getObjects the implementation under test follows; set by the checks from the witness scenario
+REV0OK = False         # which "slow cache" test the implementation follows; likewise
+
+
+def c_slices(sc):
+    return cL([cP(cN(s["name"]), cL([pl.c_pobj(o) for o in s["objects"]])) for s in sc.get("slices", [])])
+
+
 def c_case(ctx, sc, obs):
-    return "(Build_dcase %s %s %s %s)" % (
-        c_table(ctx), c_world(ctx, sc["dep"], sc["sets"], sc["store"], sc["next_rv"], sc["next_uid"]),
+    return "(Build_dcase %s %s %s %s %s %s %s)" % (
+        c_table(ctx), c_slices(sc), cB(SLICEAWARE), cB(REV0OK), c_world(ctx, sc["dep"], sc["sets"], sc["store"], sc["next_rv"], sc["next_uid"]),
         cL([c_step(ctx, s) for s in sc["steps"]]),
         cL([c_sobs(ctx, s, o) for s, o in zip(sc["steps"], obs["steps"])]))
 
 
 def scenario(ctx, dep, sets, steps, store=None, next_rv=50, next_uid=60):
     return {"alphabet": ctx.alphabet, "names": ctx.names, "dep": dep, "sets": sort_dsets(sets), "store": store or [],
-            "next_rv": next_rv, "next_uid": next_uid, "steps": steps}
+            "slices": SLICES, "next_rv": next_rv, "next_uid": next_uid, "steps": steps}
 
 
 IMPORTS = ("From PKO Require Import Base Owner Api Phase ObjectSet Deployment.\n"
@@ -229,10 +237,33 @@ def ph(name, objs):
     return {"name": name, "class": False, "objects": objs}
 
 
-# A, B, C overlap pairwise (A and B share object 1/n1, B and C share 1/n2; A' = A with another body); D is empty.
+def ref(k):
+    """reference to ObjectSlice sl<k>, as a trailing pseudo object of a phase"""
+    return {"gk": 9, "ns": 0, "name": k, "body": 0, "cp": 0, "ownerrefs": False, "dryreject": False}
+
+
+# A, B, C overlap pairwise (A and B share object 1/n1, B and C share 1/n2); D is empty;
+# E keeps 1/n1 (shared with A and B) in ObjectSlice 7 only; F has 1/n5 inline and 1/n2 (shared with B, C) in ObjectSlice 8.
 ALPHABET = [
     [ph(1, [po(1, 1), po(2, 3)])],
     [ph(1, [po(1, 1, body=2), po(1, 2)])],
     [ph(1, [po(1, 2, body=2)]), ph(2, [po(2, 4)])],
     [],
+    [ph(1, [ref(7)])],
+    [ph(1, [po(1, 5), ref(8)])],
 ]
+SLICES = [{"name": 7, "objects": [po(1, 1, body=3)]}, {"name": 8, "objects": [po(1, 2, body=3)]}]
+
+
+def full_keys(ctx, tmpl, ns):
+    """what a revision of template tmpl really contains: inline objects and the objects of its slices"""
+    out = []
+    for p in ctx.alphabet[tmpl - 1]:
+        for o in p["objects"]:
+            if o["gk"] == 9:
+                for s in SLICES:
+                    if s["name"] == o["name"]:
+                        out += [{"gk": x["gk"], "ns": x["ns"] or ns, "name": x["name"]} for x in s["objects"]]
+            else:
+                out.append({"gk": o["gk"], "ns": o["ns"] or ns, "name": o["name"]})
+    return out
